@@ -49,6 +49,24 @@ def Desc.positions (d : Desc) : List Nat :=
 
 def Desc.isCContig (d : Desc) : Bool := d.strides == (cstrides d.shape).map Int.ofNat
 
+/-- F-order (column-major) strides, in elements -/
+def fstridesFrom (acc : Nat) : Shape → List Nat
+  | [] => []
+  | n :: s => acc :: fstridesFrom (acc * n) s
+
+def fstrides (s : Shape) : List Nat := fstridesFrom 1 s
+
+/-- strides of NumPy's `order='K'` copy of an array with the given shape and strides
+(`PyArray_NewLikeArray` with `NPY_KEEPORDER`): the axes are sorted by decreasing |stride| (ties keep
+the axis order) and the copy is contiguous in that axis order.  For C- and F-contiguous prototypes
+this gives C and F strides on every axis of length ≠ 1. -/
+def korderStrides (shape : Shape) (strides : List Int) : List Int :=
+  let axes := (List.range shape.length).map fun k => (k, (strides.getD k 0).natAbs)
+  let perm := (axes.mergeSort fun a b => a.2 > b.2 || (a.2 == b.2 && a.1 ≤ b.1)).map (·.1)
+  let (out, _) := perm.reverse.foldl (fun (acc : List Int × Nat) ax =>
+    (acc.1.set ax (acc.2 : Int), acc.2 * shape.getD ax 1)) (List.replicate shape.length (0 : Int), 1)
+  out
+
 /-! ## basic indexing -/
 
 inductive Ix where
